@@ -52,6 +52,12 @@ OpAll ==
           \/ \E b \in Buckets, k \in Keys : \E v \in KnownVids(b, k) : Exists(b) /\ bkts[b].ver # "Unset" /\ GetObjectVersion(b, k, v)
           \/ \E b \in Buckets, k \in Keys : \E v \in KnownVids(b, k) : Exists(b) /\ bkts[b].ver # "Unset" /\ DeleteObjectVersion(b, k, v)
           \/ \E b \in Buckets : ListVersions(b)
+          \* copy FROM a version id: onto another key, or onto the same key from a version that
+          \* is not the current one (rolling the key back); Enabled buckets, real versions
+          \/ \E b \in Buckets, k \in Keys, k2 \in Keys : \E i \in DOMAIN Stack(b, k) :
+                /\ Exists(b) /\ bkts[b].ver = "Enabled" /\ ~Stack(b, k)[i].dm
+                /\ (k2 # k \/ i > 1)
+                /\ CopyObjectVersion(b, k, Stack(b, k)[i].vid, b, k2)
           \* (tagging BY VERSION ID is part of S3Gw but not of these behaviours: the gateway's
           \* backend interface has no version parameter for the tagging calls - a versionId on
           \* a tagging request is ignored and the current version is addressed - and none of
